@@ -35,9 +35,9 @@ import warnings
 from collections.abc import Mapping, Sequence
 
 from pywbem import CIMInstance, CIMInstanceName, CIMClass, CIMClassName, \
-    CIMParameter, CIMError, CIM_ERR_NOT_FOUND, CIM_ERR_INVALID_PARAMETER, \
-    CIM_ERR_INVALID_CLASS, CIM_ERR_METHOD_NOT_FOUND, cimtype, \
-    ToleratedSchemaIssueWarning
+    CIMProperty, CIMParameter, CIMError, CIM_ERR_NOT_FOUND, \
+    CIM_ERR_INVALID_PARAMETER, CIM_ERR_INVALID_CLASS, \
+    CIM_ERR_METHOD_NOT_FOUND, cimtype, ToleratedSchemaIssueWarning
 from pywbem._utils import _format
 from pywbem._nocasedict import NocaseDict
 
@@ -366,8 +366,14 @@ class ProviderDispatcher(BaseProvider):
             for pn in property_list:
                 if pn not in modified_instance:
                     # If the property in the class does not have a default
-                    # value, it is None.
-                    modified_instance[pn] = creation_class.properties[pn].value
+                    # value, it is None. The type is taken from the class
+                    # because it cannot be inferred from a None value.
+                    cl_prop = creation_class.properties[pn]
+                    modified_instance[pn] = CIMProperty(
+                        pn, cl_prop.value, type=cl_prop.type,
+                        is_array=cl_prop.is_array,
+                        array_size=cl_prop.array_size,
+                        embedded_object=cl_prop.embedded_object)
 
             # Remove properties from modified_instance that are not in
             # PropertyList.
